@@ -4,6 +4,7 @@ import (
 	"bytes"
 	"fmt"
 	"go/ast"
+	goparser "go/parser"
 	"go/printer"
 	"go/token"
 	"go/types"
@@ -192,6 +193,12 @@ func ruleC19R1(w *World, r *Report) {
 					continue
 				}
 			}
+			if got != want && flatPosAdd(got) == flatPosAdd(want) {
+				// posAdd(posAdd(p, 1), len(s)) and posAdd(p, 1+len(s)) are the same function of p: posAdd keeps an invalid
+				// position invalid and the addends (integer literals, lengths) are not negative
+				r.ok(rule, construct, where, fmt.Sprintf("spec '%s' == %s (chained posAdd of non-negative addends read as one)", spec, got))
+				continue
+			}
 			if got != want {
 				r.bad(rule, construct, where, fmt.Sprintf("method returns %s but the specification '%s' translates to %s", got, spec, want))
 				continue
@@ -308,4 +315,80 @@ func ruleC19R3(w *World, r *Report) {
 			r.bad(rule, "poslang."+key, w.pos(fd.Pos()), fmt.Sprintf("emitter does not emit a call to %s…) (format strings: %v)", helper, lits))
 		}
 	}
+}
+
+// flatPosAdd: the text of a Go expression with chains posAdd(posAdd(a, b), c) of non-negative addends (integer literals,
+// len(…)) rewritten to posAdd(a, b+c), addends in source order.
+func flatPosAdd(text string) string {
+	e, err := goparser.ParseExpr(text)
+	if err != nil {
+		return text
+	}
+	nonNeg := func(x ast.Expr) bool {
+		ok := true
+		ast.Inspect(x, func(n ast.Node) bool {
+			switch y := n.(type) {
+			case *ast.BinaryExpr:
+				if y.Op != token.ADD {
+					ok = false
+				}
+			case *ast.BasicLit:
+				if y.Kind != token.INT {
+					ok = false
+				}
+			case *ast.CallExpr:
+				if id, isId := y.Fun.(*ast.Ident); !isId || id.Name != "len" {
+					ok = false
+				}
+				return false
+			case *ast.ParenExpr:
+			default:
+				if n != nil {
+					ok = false
+				}
+			}
+			return ok
+		})
+		return ok
+	}
+	var addends func(x ast.Expr) []string
+	addends = func(x ast.Expr) []string {
+		x = ast.Unparen(x)
+		if be, ok := x.(*ast.BinaryExpr); ok && be.Op == token.ADD {
+			return append(addends(be.X), addends(be.Y)...)
+		}
+		return []string{types.ExprString(x)}
+	}
+	var rw func(x ast.Expr) string
+	rw = func(x ast.Expr) string {
+		switch y := x.(type) {
+		case *ast.CallExpr:
+			if id, ok := y.Fun.(*ast.Ident); ok && id.Name == "posAdd" && len(y.Args) == 2 && nonNeg(y.Args[1]) {
+				base := y.Args[0]
+				sum := addends(y.Args[1])
+				for {
+					in, ok := ast.Unparen(base).(*ast.CallExpr)
+					if !ok {
+						break
+					}
+					iid, ok := in.Fun.(*ast.Ident)
+					if !ok || iid.Name != "posAdd" || len(in.Args) != 2 || !nonNeg(in.Args[1]) {
+						break
+					}
+					sum = append(addends(in.Args[1]), sum...)
+					base = in.Args[0]
+				}
+				return "posAdd(" + rw(base) + ", " + strings.Join(sum, "+") + ")"
+			}
+			var args []string
+			for _, a := range y.Args {
+				args = append(args, rw(a))
+			}
+			return types.ExprString(y.Fun) + "(" + strings.Join(args, ", ") + ")"
+		case *ast.ParenExpr:
+			return "(" + rw(y.X) + ")"
+		}
+		return types.ExprString(x)
+	}
+	return rw(e)
 }
